@@ -132,7 +132,17 @@ func (e *Exec) clockCandidate() bool {
 
 func (e *Exec) fireNextTimer() {
 	t := e.nextTimer()
-	e.timers = e.timers[1:]
+	// timers due at the same instant may fire in any order: an environment choice
+	same := 1
+	for same < len(e.timers) && e.timers[same].when == t.when {
+		same++
+	}
+	pick := 0
+	if same > 1 {
+		pick = e.choose(same, KindEnv, false, -1)
+	}
+	t = e.timers[pick]
+	e.timers = append(e.timers[:pick], e.timers[pick+1:]...)
 	if t.when > clockNow {
 		clockNow = t.when
 	}
